@@ -131,7 +131,18 @@ def coq_make(targets: list[str], timeout=1500) -> tuple[bool, str]:
 
 
 def build_modelrun(name: str) -> tuple[bool, str]:
-    """Extract coq/extract/Extract<name>.v and link build/modelrun_<name> (driver: coq/extract/<name>_driver.ml)."""
+    """Extract coq/extract/Extract<name>.v and link build/modelrun_<name> (driver: coq/extract/<name>_driver.ml).
+    The .vo files the extraction file imports are (re)built first."""
+    src = (COQ / 'extract' / f'Extract{name}.v').read_text()
+    targets = []
+    for m in re.finditer(r'From\s+(TatsuV|TatsuGen)\s+Require\s+Import\s+(.*?)\.\s', src + ' ', re.S):
+        root = 'theories' if m.group(1) == 'TatsuV' else 'gen'
+        for mod in m.group(2).split():
+            targets.append(f'{root}/' + mod.replace('.', '/') + '.vo')
+    if targets:
+        ok, out = coq_make(targets)
+        if not ok:
+            return False, out[-1500:]
     rc, out = sh([str(VERIF / 'bin' / 'build_modelrun'), name], timeout=1500)
     return rc == 0, out
 
@@ -143,19 +154,30 @@ class ModelRun:
         self.name = name
         self.exe = BUILD / f'modelrun_{name}'
 
-    def ask(self, requests: list[str], timeout=600) -> list:
+    def ask(self, requests: list[str], timeout=120) -> list:
+        """One reply per request. A batch that does not finish in time is split until the slow request is isolated;
+        that request gets the reply ['timeout'] (the extracted evaluators are bounded in depth, not in work)."""
         if not requests:
             return []
         data = '\n'.join(requests) + '\n'
-        p = subprocess.run(['bash', '-c', f'ulimit -s unlimited 2>/dev/null; exec {self.exe}'],
-                           input=data, stdout=subprocess.PIPE, stderr=subprocess.PIPE,
-                           text=True, timeout=timeout)
+        try:
+            p = subprocess.run(['bash', '-c', f'ulimit -s unlimited 2>/dev/null; exec {self.exe}'],
+                               input=data, stdout=subprocess.PIPE, stderr=subprocess.PIPE,
+                               text=True, timeout=timeout)
+        except subprocess.TimeoutExpired:
+            if len(requests) == 1:
+                return [['timeout']]
+            mid = len(requests) // 2
+            t = max(5, timeout // 2) if len(requests) > 8 else 5
+            return self.ask(requests[:mid], t) + self.ask(requests[mid:], t)
         lines = p.stdout.split('\n')
         if lines and lines[-1] == '':
             lines.pop()
         if len(lines) != len(requests):
-            raise RuntimeError(f'modelrun_{self.name}: {len(requests)} requests, {len(lines)} replies; '
-                               f'rc={p.returncode} stderr={p.stderr[:500]}')
+            if len(requests) == 1:
+                return [['error', 'crashed', (p.stderr or '')[:200].replace(' ', '_')]]
+            mid = len(requests) // 2
+            return self.ask(requests[:mid], timeout) + self.ask(requests[mid:], timeout)
         return [parse_sx(l) for l in lines]
 
 
